@@ -73,6 +73,12 @@ def _lit_alphabet(ints, bounds, steps, with_double_colon):
 
 FULL = _lit_alphabet(_INTS_FULL, _BOUNDS_FULL, _STEPS_FULL, True)      # 1 + 1 + 8 + 719 = 729
 RED = _lit_alphabet(_INTS_RED, _BOUNDS_RED, _STEPS_RED, False)         # 1 + 5 + 47 = 53
+# rank-3 reduced alphabet (DESIGN: 41 components): ints, ':', all lo:hi and lo:hi:-1 over the reduced bounds, and
+# step 2 with the bounds that select a start or an end by default
+RED41 = ([":"] + [str(k) for k in _INTS_RED]
+         + [_sl_text(lo, hi, st) for st in (None, -1) for lo in _BOUNDS_RED for hi in _BOUNDS_RED
+            if not (lo is None and hi is None and st is None)]
+         + [_sl_text(lo, hi, 2) for lo, hi in ((None, None), (1, None), (None, -1), (-1, None))])
 MINI = [":", "0", "-1", "1:", "::-1", ":-1", "1:3"]
 MINI5 = [":", "0", "-1", "1:", "::-1"]
 TENS = ["i", "I", "i:i+1", "i:j", "i:", ":j", "i::-1", ":j:-1", "i:j:-1", "::k", "i:j:k"]
@@ -205,8 +211,8 @@ def families(tier):
     F.append(("r2-short-tens", 2, [TENS], "full", True))
     if tier == "quick":
         F.append(("r2-lit-red", 2, [RED, RED], "full", True))
-        F.append(("r2-tens-p0", 2, [TENS, RED], "red", True))
-        F.append(("r2-tens-p1", 2, [RED, TENS], "red", True))
+        F.append(("r2-tens-p0", 2, [TENS, RED], "small", True))
+        F.append(("r2-tens-p1", 2, [RED, TENS], "small", True))
         F.append(("r2-tens2", 2, [TENS4, TENS4], "small", True))
         F.append(("r3-lit-mini", 3, [MINI, MINI, MINI], "full", True))
         F.append(("r3-tens-p0", 3, [TENS4, MINI5, MINI5], "small", True))
@@ -221,7 +227,7 @@ def families(tier):
         F.append(("r2-tensF-p0", 2, [TENS, FULL], "small", True))
         F.append(("r2-tensF-p1", 2, [FULL, TENS], "small", True))
         F.append(("r2-tens2", 2, [TENS, TENS], "small", True))
-        F.append(("r3-lit-red", 3, [RED, RED, RED], "full", True))
+        F.append(("r3-lit-red", 3, [RED41, RED41, RED41], "full", True))
         F.append(("r3-short1-lit", 3, [FULL], "full", True))
         F.append(("r3-short1-tens", 3, [TENS], "full", True))
         F.append(("r3-short2-lit", 3, [RED, RED], "full", True))
@@ -230,9 +236,9 @@ def families(tier):
         F.append(("r3-tens-p0", 3, [TENS, MINI, MINI], "small", True))
         F.append(("r3-tens-p1", 3, [MINI, TENS, MINI], "small", True))
         F.append(("r3-tens-p2", 3, [MINI, MINI, TENS], "small", True))
-        F.append(("r3-tens2-p01", 3, [TENS4, TENS4, MINI], "small", True))
-        F.append(("r3-tens2-p02", 3, [TENS4, MINI, TENS4], "small", True))
-        F.append(("r3-tens2-p12", 3, [MINI, TENS4, TENS4], "small", True))
+        F.append(("r3-tens2-p01", 3, [TENS4, TENS4, MINI5], "small", True))
+        F.append(("r3-tens2-p02", 3, [TENS4, MINI5, TENS4], "small", True))
+        F.append(("r3-tens2-p12", 3, [MINI5, TENS4, TENS4], "small", True))
     return F
 
 
@@ -304,16 +310,25 @@ def _install_session_memo():
     real = ort.InferenceSession
     cache = _MEMO["cache"]
 
+    def one_thread():
+        # eager mode creates its sessions with default options = one intra-op pool thread per core per session;
+        # with 16 workers (and thousands of memoised sessions) that is only overhead.  Results do not depend on it.
+        so = ort.SessionOptions()
+        so.intra_op_num_threads = 1
+        so.inter_op_num_threads = 1
+        return so
+
     def factory(path_or_bytes, sess_options=None, providers=None, provider_options=None, **kw):
-        if (not _MEMO["on"] or sess_options is not None or provider_options is not None or kw
-                or not isinstance(path_or_bytes, bytes)):
+        if sess_options is not None or provider_options is not None or kw or not isinstance(path_or_bytes, bytes):
             return real(path_or_bytes, sess_options, providers, provider_options, **kw)
+        if not _MEMO["on"]:
+            return real(path_or_bytes, one_thread(), providers=providers)
         key = (path_or_bytes, tuple(providers or ()))
         s = cache.get(key)
         if s is None:
             if len(cache) >= 6000:
                 cache.clear()
-            s = cache[key] = real(path_or_bytes, providers=providers)
+            s = cache[key] = real(path_or_bytes, one_thread(), providers=providers)
         return s
     ort.InferenceSession = factory
     _MEMO["installed"] = True
@@ -586,61 +601,119 @@ def _verdict(expr, rank, shape, vals, memo, side):
     return r[0 if side == "graph" else 1]
 
 
+def _I_order(d):
+    return [[0], [0, 0], [0, 0, 0], [0, 0, 0, 0, 0], [d]]
+
+
 def minimise(expr, rank, shape, vals, memo, side, kind):
-    """Greedy reduction of a failing (expression, valuation) on a fixed shape, preserving side and kind."""
+    """Greedy reduction of a failing (expression, shape, valuation), preserving side and kind.
+
+    Steps (each kept only when the case still fails the same way): shorter tuple; component -> ':' ; tensor
+    component -> the literal of the same value; 1-D tensor -> 0-d tensor; slice -> '0:' (a slice that selects
+    everything) ; slice bounds/step -> omitted, step -> unit step; int -> 0 / -1; move a component left over a
+    ':' (transposing the shape with it); simplest valuation.  -> (expr, shape, vals, classes)
+    """
     expr = list(expr)
     vals = dict(vals)
+    shape = tuple(shape)
 
-    def fails(cand, cvals=None):
-        return _verdict(cand, rank, shape, vals if cvals is None else cvals, memo, side) == kind
+    def fails(cand, cvals=None, cshape=None):
+        return _verdict(cand, rank, shape if cshape is None else cshape,
+                        vals if cvals is None else cvals, memo, side) == kind
 
-    changed = True
-    while changed:
-        changed = False
-        # shorter tuple
-        while len(expr) > 1 and fails(expr[:-1]):
-            expr = expr[:-1]
-            changed = True
-        for p in range(len(expr)):
-            code = expr[p]
-            if code in (":", "::"):
-                if code == "::" and fails(expr[:p] + [":"] + expr[p + 1:]):
-                    expr[p] = ":"
-                    changed = True
-                continue
-            cands = [":"]
-            lit = _literalise(code, p, vals)
-            if lit is not None:
-                cands.append(lit)
-            c = parse(code)
-            if c[0] == "int":
-                # well-founded: 0 is minimal, -1 may only become 0, anything else may become 0 or -1
-                cands += {0: [], -1: ["0"]}.get(c[1], ["0", "-1"])
-            if c[0] == "sl":
-                lo, hi, stp = c[1:]
-                if lo is not None:
-                    cands.append(_sl_text(None, hi, stp))
-                if hi is not None:
-                    cands.append(_sl_text(lo, None, stp))
-                if stp is not None:
-                    cands.append(_sl_text(lo, hi, None))
-                    if abs(stp) > 1:
-                        cands.append(_sl_text(lo, hi, stp // abs(stp)))
-            for cand in cands:
-                if cand == code or cand == "":
+    while True:
+        before = (list(expr), dict(vals), shape)
+        changed = True
+        while changed:
+            changed = False
+            while len(expr) > 1 and fails(expr[:-1]):
+                expr = expr[:-1]
+                changed = True
+            for p in range(len(expr)):
+                code = expr[p]
+                if code in (":", "::"):
+                    if code == "::" and fails(expr[:p] + [":"] + expr[p + 1:]):
+                        expr[p] = ":"
+                        changed = True
                     continue
-                if parse(cand)[0] == "sl" and parse(cand)[1:] == (None, None, None):
-                    cand = ":"
-                trial = expr[:p] + [cand] + expr[p + 1:]
-                if fails(trial):
-                    expr = trial
-                    changed = True
-                    break
-    while len(expr) > 1 and expr[-1] == ":" and fails(expr[:-1]):
-        expr = expr[:-1]
-    vals = _restrict(expr, vals)
+                c = parse(code)
+                cands = [(":", None)]
+                lit = _literalise(code, p, vals)
+                if lit is not None:
+                    cands.append((lit, None))
+                if c[0] == "tI" and vals[f"I{p}"]:
+                    nv = dict(vals)
+                    nv[f"i{p}"] = vals[f"I{p}"][0]
+                    cands.append(("i", nv))
+                if c[0] == "int":
+                    # well-founded: 0 is minimal, -1 may only become 0, anything else may become 0 or -1
+                    cands += [(x, None) for x in {0: [], -1: ["0"]}.get(c[1], ["0", "-1"])]
+                if c[0] == "sl":
+                    lo, hi, stp = c[1:]
+                    if code != "0:":
+                        cands.append(("0:", None))
+                    if lo is not None and code != "0:":
+                        cands.append((_sl_text(None, hi, stp), None))
+                    if hi is not None:
+                        cands.append((_sl_text(lo, None, stp), None))
+                    if stp is not None:
+                        cands.append((_sl_text(lo, hi, None), None))
+                        if abs(stp) > 1:
+                            cands.append((_sl_text(lo, hi, stp // abs(stp)), None))
+                for cand, cvals in cands:
+                    if cand == code or cand == "":
+                        continue
+                    if parse(cand)[0] == "sl" and parse(cand)[1:] == (None, None, None):
+                        cand = ":"
+                    trial = expr[:p] + [cand] + expr[p + 1:]
+                    if fails(trial, cvals):
+                        expr = trial
+                        if cvals is not None:
+                            vals = cvals
+                        changed = True
+                        break
+            # move a component left over a ':' (the axis it applies to moves with it)
+            for p in range(1, len(expr)):
+                if expr[p - 1] in (":", "::") and expr[p] not in (":", "::"):
+                    trial = expr[:p - 1] + [expr[p], expr[p - 1]] + expr[p + 1:]
+                    tshape = shape[:p - 1] + (shape[p], shape[p - 1]) + shape[p + 1:]
+                    tvals = {}
+                    for k, v in vals.items():
+                        if k[1:] == str(p):
+                            tvals[k[0] + str(p - 1)] = v
+                        else:
+                            tvals[k] = v
+                    if fails(trial, tvals, tshape):
+                        expr, shape, vals = trial, tshape, tvals
+                        changed = True
+                        break
+        while len(expr) > 1 and expr[-1] == ":" and fails(expr[:-1]):
+            expr = expr[:-1]
+        vals = _restrict(expr, vals)
+        # simplest valuation that still fails (well-founded orders)
+        changed = True
+        while changed:
+            changed = False
+            for name in sorted(vals):
+                v = vals[name]
+                if name[0] == "I":
+                    order = _I_order(shape[int(name[1:])])
+                    cands = order[:order.index(v)] if v in order else order
+                elif name[0] == "k":
+                    cands = [] if v == 1 else [1] if v == -1 else [1, -1]
+                else:
+                    cands = [] if v == 0 else [0] if v == -1 else [0, -1]
+                for c in cands:
+                    trial = dict(vals)
+                    trial[name] = c
+                    if fails(expr, trial):
+                        vals = trial
+                        changed = True
+                        break
+        if (expr, vals, shape) == before:
+            break
     classes = " + ".join(classify(code, p, shape[p], vals) for p, code in enumerate(expr))
-    return expr, vals, classes
+    return expr, shape, vals, classes
 
 
 def _desc(x):
@@ -691,18 +764,18 @@ def execute(item):
                 for side, j, got in (("graph", jg, g), ("eager", je, e)):
                     if not _bad(j):
                         continue
-                    mexpr, mvals, classes = minimise(expr, rank, shape, vals, memo, side, j)
+                    mexpr, mshape, mvals, classes = minimise(expr, rank, shape, vals, memo, side, j)
                     key = f"C11|{side}|{classes}"
                     v = viols.get(key)
                     if v is None:
                         msrc, _ = source_of(mexpr, rank)
-                        mw, mg, me = evaluate(mexpr, rank, shape, mvals, memo)
+                        mw, mg, me = evaluate(mexpr, rank, mshape, mvals, memo)
                         viols[key] = {"key": key, "detail": {
                             "kind": j, "minimal_index": "X[" + ", ".join(render(c, p) for p, c in enumerate(mexpr)) + "]",
-                            "shape": list(shape), "tensor_inputs": mvals, "numpy": _desc(mw),
+                            "shape": list(mshape), "tensor_inputs": mvals, "numpy": _desc(mw),
                             "graph": _desc(mg), "eager": _desc(me), "source": msrc,
                             "first_seen_in": "X[" + ", ".join(render(c, p) for p, c in enumerate(expr)) + "]",
-                            "first_seen_inputs": vals, "cases_in_item": 1}}
+                            "first_seen_shape": list(shape), "first_seen_inputs": vals, "cases_in_item": 1}}
                     else:
                         v["detail"]["cases_in_item"] += 1
         if compared:
